@@ -335,7 +335,7 @@ Theorem C16_mdeg_add : forall I (e : exp_ops I) eZ, exp_laws e eZ -> forall a b 
   Reduced e a -> Reduced e b -> md_at e (md_add e a b) i = eadd e (md_at e a i) (md_at e b i).
 Proof. exact (@at_add). Qed.
 Print Assumptions C16_mdeg_add.
-Theorem C16_mdeg_ext : forall I (e : exp_ops I) eZ, exp_laws e eZ -> forall a b,
+Theorem C16_mdeg_ext : forall I (e : exp_ops I) a b,
   Reduced e a -> Reduced e b -> (forall i, md_at e a i = md_at e b i) -> a = b.
 Proof. exact (@mdeg_ext). Qed.
 Print Assumptions C16_mdeg_ext.
